@@ -144,6 +144,8 @@ def check_invariants(env: Any, s: Any) -> List[str]:
         out.append("empty-board: a 2048 position always holds at least one tile")
     if float(s.score) < 0:
         out.append(f"negative-score: {float(s.score)}")
+    if not _legal_board(b).any():
+        out.append(f"continuing-state-without-legal-move: no move changes {b.tolist()} but the episode goes on")
     return out
 
 
